@@ -1451,6 +1451,23 @@ def zk43_adm (big : Bool) : RelinAdm big 2 4 3 zk43 [[1, 1]] zkEL (fun _ _ => [0
   hG := le_refl _
   hDr := le_refl _
 
+/-- **the relinearisation contract for a tensor with any digit bound** (`D0` on columns 0 and 2, `D1 ≥ D0` on column 1, head-room
+`Hp + D1 + 8 ≤ 2^(bits−2)`): the form the accumulated tensor of the fused `ckks_dot_product_ct` needs (`n` normalised tensors added limb-wise:
+`D0 = n·2^(b−1)`, `D1 = n·3·2^(b−1)`); `relin_contract_discharged` is the instance `D0 = 2^(b−1)`, `D1 = 3·2^(b−1)`.  `RelinAdm.of_numericG`
+gives `RelinAdm` for such a tensor from the numeric key hypotheses (accumulators within `dnum·N·D0·Kb`, gadget noise within `dnum·N·D0·Emax`). -/
+theorem relin_contract_discharged_digits {big : Bool} {N b ts : Nat} (hN : 0 < N) (hb1 : 1 ≤ b) (hb62 : b ≤ 62) {g : Core.GGLWE} {s : List Poly}
+    {EL KL : ℕ → ℕ → Poly} {Hp Gmax Dmax : Int} {T0 T1 T2 : Col} (h : RelinAdm big N b ts g s EL KL Hp Gmax Dmax T0 T2) (rs : Nat)
+    (w0 : C02L.ColWF N ts T0) (w1 : C02L.ColWF N ts T1) (w2 : C02L.ColWF N ts T2)
+    {D0 D1 : Int} (hD0 : 0 ≤ D0) (hD01 : D0 ≤ D1) (hA1 : Hp + D1 + 8 ≤ 2 ^ (KsDec.bitsOf big - 2))
+    (d0 : ∀ l ∈ T0, ∀ v ∈ l, |v| ≤ D0) (d1 : ∀ l ∈ T1, ∀ v ∈ l, |v| ≤ D1) (d2 : ∀ l ∈ T2, ∀ v ∈ l, |v| ≤ D0) :
+    RelinContractAt N b ts rs ⟨big, g⟩ s (relinU b rs g.size s Gmax Dmax) T0 T1 T2 :=
+  relinContract_of_admG hN hb1 hb62 h rs w0 w1 w2 hD0 hD01 hA1 d0 d1 d2
+
+/-- digits up to `2·2^3` / `2·3·2^3` (two accumulated tensors at radix 4) are admitted -/
+example (big : Bool) : ∃ U, RelinContractAt 2 4 3 3 ⟨big, zk43⟩ [[1, 1]] U [[-6, -4], [0, 0], [0, 0]] [[12, 12], [0, 0], [0, 0]] [[0, 0], [0, 0], [0, 0]] :=
+  ⟨_, relin_contract_discharged_digits (by norm_num) (by norm_num) (by norm_num) (zk43_adm big) 3 (by decide) (by decide) (by decide)
+    (D0 := 16) (D1 := 48) (by norm_num) (by norm_num) (by cases big <;> norm_num [KsDec.bitsOf]) (by decide) (by decide) (by decide)⟩
+
 /-- **`ckks_mul_into` (rank 1): the ct × ct product contract discharged end to end** -/
 theorem mul_ct_contract_discharged {env : Env} (he : EnvOK env) {N : Nat} (hN : 0 < N) {mk : MulKey} {dst a b : DCt} {Hd : Int}
     (hd : GB N env.base2k 1 Hd dst.g) (ha : DOK env N 1 a) (hb : DOK env N 1 b) {m : Ct}
